@@ -9,6 +9,7 @@
   retention point, or adding a new aliasing store, changes Gen.aliasSites and breaks `aliasSites_tie`.
 -/
 import PacketVerif.Gen.Facts
+import PacketVerif.Props.C10Prov
 namespace PV.Props.C10Tie
 
 /-- reviewed alias sites, with the reason each one is not a retention of the packet buffer.  An entry is
@@ -93,5 +94,127 @@ def reviewedGo : List String := [
     harness/c10 runs the secondary modes on one P and awaits the background senders — then shows the garbled
     DECLINE frames). -/
 theorem goAliasArgs_tie : Gen.goAliasArgs = reviewedGo := by decide
+
+/-! ## the provenance tie (F11): the regenerated site table instantiates the machine of Model/Prov.lean -/
+open PV.Prov
+
+def srcOf : Nat × Nat → Src
+  | (0, _) => .heap
+  | (1, _) => .pkt
+  | (2, c) => .cls c
+  | _ => .unknown
+
+/-- the site table of the Go code, regenerated from the source on every run -/
+def codeTable : List Site := Gen.provSites.map fun x => ⟨x.1, x.2.1, x.2.2.map srcOf⟩
+
+def className (c : Nat) : String := Gen.provClassNames.getD c "?"
+
+/-- a retention class (record field reached through a pointer, package variable, goroutine arguments, channel, external
+    callee, closure) as opposed to the parameter pseudo-classes arg:f#i / argout:f#i -/
+def isRetention (c : Nat) : Bool := c < Gen.provPseudoFrom
+
+/-- the classes that may hold a reference into a packet buffer: the certificate computed by the extractor (a bit mask) -/
+def codeTaint : ClassSet := maskSet Gen.provTaintMask
+
+/-- the sites that store a possibly packet-derived reference into a retention class: (site, class) -/
+def taintingSites : List (String × String) :=
+  (codeTable.filter fun s => isRetention s.cls && anyTainted codeTaint s.rhs).map fun s => (s.name, className s.cls)
+
+/-- the retention classes that may hold a reference the library did not allocate -/
+def taintedRetention : List String := ((List.range Gen.provPseudoFrom).filter codeTaint).map className
+
+/-- the mask is the list `Gen.provTaint` (kept for reading) -/
+theorem prov_taint_mask : maskOf Gen.provTaint = Gen.provTaintMask := by decide +kernel
+
+/-- the translator understood every expression and callee it met on a tracked value -/
+theorem prov_no_unknown : Gen.provUnknown = [] := by decide
+
+set_option maxRecDepth 100000 in
+/-- the certificate of the extractor IS closed under the regenerated table (checked here, not trusted) -/
+theorem prov_taint_closed : closedB codeTaint codeTable = true := by decide +kernel
+
+/-- reviewed: every site that stores into a retention class something that is not (derived only from) heap, with the reason.
+    All of them store an ARGUMENT OF AN EXPORTED FUNCTION that is not packet data by the API's contract, or live in a
+    local parser object; none is reached from Session.Parse / ProcessPacket with a slice of the frame. -/
+def reviewedTainting : List ((String × String) × String) := [
+  (("arp_spoofer.Handler.StartHunt:arp_spoofer.Handler.huntList=addr", "arp_spoofer.Handler.huntList"),
+     "API argument of StartHunt: callers pass Host.Addr, whose MAC is the table's private copy; never a frame address"),
+  (("dns_naming.DNSHandler.ProcessMDNS:p=golang.org/x/net/dns/dnsmessage.Parser.Start", "dnsmessage.Parser.msg"),
+     "the dnsmessage.Parser is a local variable of ProcessMDNS, dead when it returns; what is taken out of it is strings and fixed-size arrays"),
+  (("dns_naming.DNSHandler.ProcessNBNS:p=golang.org/x/net/dns/dnsmessage.Parser.Start", "dnsmessage.Parser.msg"),
+     "idem (ProcessNBNS)"),
+  (("arp_spoofer.Handler.StartHunt:go arp_spoofer.Handler.spoofLoop(addr)", "go:arp_spoofer.Handler.spoofLoop"),
+     "API argument of StartHunt handed to the hunt goroutine (see huntList)"),
+  (("icmp_spoofer.Handler6.StartHunt:go icmp_spoofer.Handler6.spoofLoop(addr)", "go:icmp_spoofer.Handler6.spoofLoop"),
+     "API argument of Handler6.StartHunt handed to the hunt goroutine"),
+  (("icmp_spoofer.Handler6.startRADVS:icmp_spoofer.Router.Prefixes=prefixes", "icmp_spoofer.Router.Prefixes"),
+     "API argument of StartRADVS (the operator's prefix configuration) stored as given; the prefixes of a received RA are copies (PrefixInformation.unmarshal)"),
+  (("packet.AddrList.Add:packet.AddrList.list=append(s.list,addr)", "packet.AddrList.list"),
+     "the icmp6 hunt list: receives the API argument of Handler6.StartHunt"),
+  (("packet.AddrList.Del:packet.AddrList.list=s.list[:]", "packet.AddrList.list"),
+     "re-slice of the same list"),
+  (("packet.Config.NewSession:packet.Session.Conn=config.Conn", "packet.Session.Conn"),
+     "the connection object the application supplies")]
+
+set_option maxRecDepth 100000 in
+/-- **retention_sites_heap.**  Every regenerated retention site stores heap (or a value derived only from classes that hold
+    heap), or is on the reviewed list.  Dropping a CopyMAC / CopyIP / CopyBytes / dupBytes on a retention path, storing a
+    frame field, passing a packet slice to a goroutine or sending one on a channel adds an entry and breaks this theorem. -/
+theorem retention_sites_heap : taintingSites = reviewedTainting.map (·.1) := by decide +kernel
+
+set_option maxRecDepth 100000 in
+/-- the classes the theorem below does NOT speak about (exactly the classes of the reviewed sites) -/
+theorem tainted_retention_classes : taintedRetention =
+    ["arp_spoofer.Handler.huntList", "dnsmessage.Parser.msg", "go:arp_spoofer.Handler.spoofLoop",
+     "go:icmp_spoofer.Handler6.spoofLoop", "icmp_spoofer.Router.Prefixes", "packet.AddrList.list", "packet.Session.Conn"] := by decide +kernel
+
+/-- reviewed: `&T{…}` records that are built for an outgoing message and dropped on return; the extractor does not count
+    their fields as stores into the class T.f (assumption: the record is not reachable from retained state) -/
+def reviewedTransient : List (String × String) := [
+  ("arp_spoofer.Handler.RequestRaw:packet.Addr{MAC}=dst", "destination address of the frame written by WriteTo before the function returns"),
+  ("arp_spoofer.Handler.reply:packet.Addr{MAC}=dst", "idem"),
+  ("packet.LinkLayerAddress.marshal:packet.RawOption{Value}=lla.MAC", "raw option of the message being marshalled; marshal copies Value into the fresh output"),
+  ("packet.Session.ICMP6SendRouterAdvertisement:packet.PrefixInformation{Prefix}=prefix.Prefix", "option record of the outgoing RA, marshalled (copy) before the function returns")]
+
+theorem transient_literals_tie : Gen.provTransientLits = reviewedTransient.map (·.1) := by decide
+
+/-- reviewed: library functions whose result the extractor takes to be fresh although the body does not show it:
+    CopyIP returns `srcIP.To16()` when len(srcIP) = 4, and To16 of a 4-byte IP allocates (net.IPv4) -/
+theorem summary_overrides_tie : Gen.provSummaryOverrides = ["packet.CopyIP"] := by decide
+
+set_option maxRecDepth 100000 in
+/-- the retention paths the property names are classes of the table and are NOT among the excluded ones -/
+def namedPaths : List String :=
+  ["packet.MACEntry.MAC", "packet.Host.Addr", "dhcp4_spoofer.Lease.Addr", "dhcp4_spoofer.Lease.ClientID", "dhcp4_spoofer.Lease.XID",
+   "icmp_spoofer.Router.Addr", "icmp_spoofer.Router.Options", "packet.RecursiveDNSServer.Servers", "packet.PrefixInformation.Prefix",
+   "packet.RouteInformation.Prefix", "packet.LinkLayerAddress.MAC", "packet.Session.C", "go:dhcp4_spoofer.Handler.forceDecline",
+   "go:dhcp4_spoofer.Handler.forceDecline.func", "go:dhcp4_spoofer.Handler.forceRelease.func", "go:packet.Session.purge.func",
+   "dns_naming.DNSHandler.mdnsCache"]
+
+def classId (n : String) : Option Nat :=
+  let i := Gen.provClassNames.idxOf n
+  if i < Gen.provClassNames.length then some i else none
+
+theorem named_paths_covered :
+    namedPaths.all (fun n => match classId n with
+      | some c => isRetention c && !codeTaint c
+      | none => false) = true := by decide +kernel
+
+/-- **code_retains_no_alias.**  For every history of the provenance machine over the site table regenerated from the Go
+    source — any packets, any executions of any sites, any deletions — every reference retained in a class outside
+    `codeTaint` (in particular in every class of `namedPaths`) is private memory of the library; hence … -/
+theorem code_retains_no_alias (ops : List Op) :
+    ∀ p ∈ run codeTable [] ops, codeTaint p.1 = false → p.2.isHeap = true :=
+  C10Prov.no_retained_alias_outside codeTable codeTaint prov_taint_closed [] (fun _ h => nomatch h) ops
+
+/-- … overwriting any buffer the caller ever handed over changes nothing an observer of those classes can see. -/
+theorem code_overwrite_invisible (ops : List Op) (σ σ' : Store) :
+    observe codeTaint σ (run codeTable [] ops) = observe codeTaint σ' (run codeTable [] ops) :=
+  C10Prov.overwrite_invisible codeTable codeTaint prov_taint_closed ops σ σ'
+
+-- non-vacuity: the table is not empty, the excluded set is a small part of the retention classes, and the machine over the
+-- real table does retain something: the site MACTable.findOrCreate stores a copy
+set_option maxRecDepth 100000 in
+example : codeTable.length > 500 ∧ taintedRetention.length = 7 ∧ Gen.provPseudoFrom > 50 := by decide +kernel
 
 end PV.Props.C10Tie
